@@ -264,6 +264,10 @@ func c08SealedOddUID(r *simcore.Run, tp *simcore.Tape, hdr []byte, prov *ntske.P
 
 var c08UIDLen = 32
 
+// c08UnknownField, when set, is the body of an unknown extension field the next
+// c08RawNTSRequest places between the unique identifier and the cookie.
+var c08UnknownField []byte
+
 // c08OddAuthenticator: header, a unique identifier field, and an authenticator field whose
 // nonce length is not a multiple of four and whose ciphertext is tiny, cut off inside or
 // right behind the nonce or its padding.
@@ -1218,6 +1222,9 @@ func c08RawNTSRequest(hdr []byte, cookie []byte, nph int, c2s []byte) []byte {
 	uid := make([]byte, c08UIDLen)
 	rand.Read(uid)
 	put(0x0104, uid)
+	if c08UnknownField != nil {
+		put(0x4242, c08UnknownField) // an extension field of a type this project does not know
+	}
 	put(0x0204, cookie)
 	for i := 0; i < nph; i++ {
 		put(0x0304, make([]byte, len(cookie)))
